@@ -12,10 +12,13 @@ CONSTANTS Options,       \* documented options that can be switched away from th
           Deviations     \* open findings: combinations that are known not to load
 
 Configs == {S \in SUBSET Options : Cardinality(S) <= MaxOn}
+\* an operation (or an included file) whose file name is the name of another file of the package: client, enums module,
+\* exceptions.py, base_model.py, the base client file, a file from files_to_include
+CollidingSets == {"colliding_file_names", "collide_exceptions", "collide_base_model", "collide_base_client", "collide_enums", "collide_include"}
 \* the documented refusals (the only ones allowed)
 Refused(cfg, ops) == CASE ops = "subscription" /\ "sync" \in cfg -> "NotSupported"
                        [] ops = "anonymous" -> "ParsingError"
-                       [] ops = "colliding_file_names" -> "ParsingError"
+                       [] ops \in CollidingSets -> "ParsingError"
                        [] ops = "malformed_mixin" -> "CodeGenException"
                        [] OTHER -> "none"
 \* as built: custom operations x pruning (F20), custom operations x renamed input-types module (F21)
